@@ -24,31 +24,26 @@ Proof. discriminate. Qed.
    stale bytes behind), a hand-written comparison, or a derive removed from a type shows here. *)
 Local Open Scope string_scope.
 Lemma structural_traits_pinned_C12 : structural_traits_C12 =
-  ["src/error.rs: InvalidPublicKeyError derives Debug";
-   "src/error.rs: MatchProofsError derives Debug";
-   "src/error.rs: NormalizedStringError derives Debug";
-   "src/error.rs: SrpError derives Debug";
-   "src/error.rs: UnsplitCryptoError derives Debug";
-   "src/key.rs: $name derives Clone Copy Debug Eq Hash Ord PartialEq PartialOrd";
-   "src/normalized_string.rs: NormalizedString derives Clone Debug Eq Hash Ord PartialEq PartialOrd";
-   "src/rc4.rs: Rc4 derives Clone Debug Eq Hash Ord PartialEq PartialOrd";
-   "src/tbc_header/decrypt.rs: DecrypterHalf derives Clone Debug Eq Hash Ord PartialEq PartialOrd";
-   "src/tbc_header/encrypt.rs: EncrypterHalf derives Clone Debug Eq Hash Ord PartialEq PartialOrd";
-   "src/tbc_header/mod.rs: HeaderCrypto derives Clone Debug Eq Hash Ord PartialEq PartialOrd";
-   "src/tbc_header/mod.rs: ProofSeed derives Clone Copy Debug Eq Hash Ord PartialEq PartialOrd";
-   "src/vanilla_header/decrypt.rs: DecrypterHalf derives Clone Debug Eq Hash Ord PartialEq PartialOrd";
-   "src/vanilla_header/encrypt.rs: EncrypterHalf derives Clone Debug Eq Hash Ord PartialEq PartialOrd";
-   "src/vanilla_header/mod.rs: ClientHeader derives Clone Copy Debug Eq Hash Ord PartialEq PartialOrd";
-   "src/vanilla_header/mod.rs: HeaderCrypto derives Clone Debug Eq Hash Ord PartialEq PartialOrd";
-   "src/vanilla_header/mod.rs: ProofSeed derives Clone Copy Debug Eq Hash Ord PartialEq PartialOrd";
-   "src/vanilla_header/mod.rs: ServerHeader derives Clone Copy Debug Eq Hash Ord PartialEq PartialOrd";
-   "src/wrath_header/decrypt.rs: ClientDecrypterHalf derives Clone Debug Eq Hash Ord PartialEq PartialOrd";
-   "src/wrath_header/decrypt.rs: ServerDecrypterHalf derives Clone Debug Eq Hash Ord PartialEq PartialOrd";
-   "src/wrath_header/encrypt.rs: ClientEncrypterHalf derives Clone Debug Eq Hash Ord PartialEq PartialOrd";
-   "src/wrath_header/encrypt.rs: ServerEncrypterHalf derives Clone Debug Eq Hash Ord PartialEq PartialOrd";
-   "src/wrath_header/inner_crypto/mod.rs: InnerCrypto derives Clone Debug Eq Hash Ord PartialEq PartialOrd";
-   "src/wrath_header/mod.rs: ClientCrypto derives Clone Debug Eq Hash Ord PartialEq PartialOrd";
-   "src/wrath_header/mod.rs: ProofSeed derives Clone Copy Debug Eq Hash Ord PartialEq PartialOrd";
-   "src/wrath_header/mod.rs: ServerCrypto derives Clone Debug Eq Hash Ord PartialEq PartialOrd";
-   "src/wrath_header/mod.rs: ServerHeader derives Clone Copy Debug Eq Hash Ord PartialEq PartialOrd"].
+  ["src/key.rs: $name derives Clone Copy Eq Hash Ord PartialEq PartialOrd";
+   "src/normalized_string.rs: NormalizedString derives Clone Eq Hash Ord PartialEq PartialOrd";
+   "src/rc4.rs: Rc4 derives Clone Eq Hash Ord PartialEq PartialOrd";
+   "src/tbc_header/decrypt.rs: DecrypterHalf derives Clone Eq Hash Ord PartialEq PartialOrd";
+   "src/tbc_header/encrypt.rs: EncrypterHalf derives Clone Eq Hash Ord PartialEq PartialOrd";
+   "src/tbc_header/mod.rs: HeaderCrypto derives Clone Eq Hash Ord PartialEq PartialOrd";
+   "src/tbc_header/mod.rs: ProofSeed derives Clone Copy Eq Hash Ord PartialEq PartialOrd";
+   "src/vanilla_header/decrypt.rs: DecrypterHalf derives Clone Eq Hash Ord PartialEq PartialOrd";
+   "src/vanilla_header/encrypt.rs: EncrypterHalf derives Clone Eq Hash Ord PartialEq PartialOrd";
+   "src/vanilla_header/mod.rs: ClientHeader derives Clone Copy Eq Hash Ord PartialEq PartialOrd";
+   "src/vanilla_header/mod.rs: HeaderCrypto derives Clone Eq Hash Ord PartialEq PartialOrd";
+   "src/vanilla_header/mod.rs: ProofSeed derives Clone Copy Eq Hash Ord PartialEq PartialOrd";
+   "src/vanilla_header/mod.rs: ServerHeader derives Clone Copy Eq Hash Ord PartialEq PartialOrd";
+   "src/wrath_header/decrypt.rs: ClientDecrypterHalf derives Clone Eq Hash Ord PartialEq PartialOrd";
+   "src/wrath_header/decrypt.rs: ServerDecrypterHalf derives Clone Eq Hash Ord PartialEq PartialOrd";
+   "src/wrath_header/encrypt.rs: ClientEncrypterHalf derives Clone Eq Hash Ord PartialEq PartialOrd";
+   "src/wrath_header/encrypt.rs: ServerEncrypterHalf derives Clone Eq Hash Ord PartialEq PartialOrd";
+   "src/wrath_header/inner_crypto/mod.rs: InnerCrypto derives Clone Eq Hash Ord PartialEq PartialOrd";
+   "src/wrath_header/mod.rs: ClientCrypto derives Clone Eq Hash Ord PartialEq PartialOrd";
+   "src/wrath_header/mod.rs: ProofSeed derives Clone Copy Eq Hash Ord PartialEq PartialOrd";
+   "src/wrath_header/mod.rs: ServerCrypto derives Clone Eq Hash Ord PartialEq PartialOrd";
+   "src/wrath_header/mod.rs: ServerHeader derives Clone Copy Eq Hash Ord PartialEq PartialOrd"].
 Proof. reflexivity. Qed.
